@@ -2,6 +2,8 @@ package engine
 
 import (
 	"go/token"
+	"go/types"
+	"regexp"
 
 	"golang.org/x/tools/go/ssa"
 )
@@ -46,7 +48,13 @@ func (p *Program) CondOf(v ssa.Value) Cond {
 	if b, ok := v.(*ssa.BinOp); ok {
 		switch b.Op {
 		case token.LSS, token.LEQ, token.EQL, token.NEQ, token.GEQ, token.GTR:
-			return Cond{IsRel: true, Op: b.Op, X: p.D(b.X), Y: p.D(b.Y), XV: b.X, YV: b.Y, Neg: neg}
+			c := Cond{IsRel: true, Op: b.Op, X: p.D(b.X), Y: p.D(b.Y), XV: b.X, YV: b.Y, Neg: neg}
+			// canonical orientation: a constant-like operand goes to the
+			// right ("nil != err" reads as "err != nil")
+			if constLike(c.X) && !constLike(c.Y) {
+				c = c.Flipped()
+			}
+			return c
 		}
 	}
 	return Cond{B: p.D(v), BV: v, Neg: neg}
@@ -122,7 +130,31 @@ func (c Cond) EdgeOrd(trueEdge bool) OrdSet {
 	if !trueEdge {
 		s = AnyOrd &^ s
 	}
+	// a non-negative quantity compared with 0 is never smaller: "x != 0"
+	// and "x > 0" are the same test for unsigned x and for len()/cap()
+	if c.Y == "0" && nonNegative(c.XV) {
+		s &^= LT
+	}
 	return s
+}
+
+// NonNegative reports whether a value can never be below zero (unsigned
+// types, len, cap).
+func NonNegative(v ssa.Value) bool { return nonNegative(v) }
+
+func nonNegative(v ssa.Value) bool {
+	if v == nil {
+		return false
+	}
+	if b, ok := v.Type().Underlying().(*types.Basic); ok && b.Info()&types.IsUnsigned != 0 {
+		return true
+	}
+	if call, ok := v.(*ssa.Call); ok {
+		if bi, ok := call.Common().Value.(*ssa.Builtin); ok && (bi.Name() == "len" || bi.Name() == "cap") {
+			return true
+		}
+	}
+	return false
 }
 
 // RelOn reports whether the condition compares a with b (in either order) and
@@ -138,4 +170,79 @@ func (c Cond) RelOn(a, b string) (OrdSet, bool) {
 		return c.EdgeOrd(true).Flip(), true
 	}
 	return 0, false
+}
+
+
+var paramLike = regexp.MustCompile(`^c*(recv|p[0-9]+)$`)
+var identLike = regexp.MustCompile(`^[A-Za-z_][A-Za-z0-9_/]*$`)
+
+// constLike reports whether a descriptor denotes a constant, nil, or a
+// package-level value (never a parameter, field path, call or cell).
+func constLike(d string) bool {
+	if d == "" {
+		return false
+	}
+	switch d[0] {
+	case '"', '-', '@', '0', '1', '2', '3', '4', '5', '6', '7', '8', '9':
+		return true
+	}
+	if d == "nil" || d == "true" || d == "false" || d == "zero" {
+		return true
+	}
+	return identLike.MatchString(d) && !paramLike.MatchString(d)
+}
+
+func mirrorOp(op token.Token) token.Token {
+	switch op {
+	case token.LSS:
+		return token.GTR
+	case token.LEQ:
+		return token.GEQ
+	case token.GTR:
+		return token.LSS
+	case token.GEQ:
+		return token.LEQ
+	}
+	return op
+}
+
+// Flipped returns the same condition with its operands exchanged.
+func (c Cond) Flipped() Cond {
+	if !c.IsRel {
+		return c
+	}
+	c.X, c.Y = c.Y, c.X
+	c.XV, c.YV = c.YV, c.XV
+	c.Op = mirrorOp(c.Op)
+	return c
+}
+
+// With orients a comparison so that the operand satisfying isX is on the
+// left; ok=false when neither operand does.
+func (c Cond) With(isX func(desc string) bool) (Cond, bool) {
+	if !c.IsRel {
+		return c, false
+	}
+	if isX(c.X) {
+		return c, true
+	}
+	if isX(c.Y) {
+		return c.Flipped(), true
+	}
+	return c, false
+}
+
+// WithY orients a comparison so that the operand satisfying isY is on the
+// right.
+func (c Cond) WithY(isY func(desc string) bool) (Cond, bool) {
+	if !c.IsRel {
+		return c, false
+	}
+	if isY(c.Y) {
+		return c, true
+	}
+	if isY(c.X) {
+		return c.Flipped(), true
+	}
+	return c, false
 }
